@@ -8,6 +8,7 @@ import Wencry.Proofs.PipeProgress
 import Wencry.Proofs.SeqGlue
 import Wencry.Proofs.PipeSpurious
 import Wencry.Proofs.PipeFine
+import Wencry.Proofs.PipeFineSpurious
 namespace Wencry.Props.C04
 open Wencry Wencry.Model.Pipe Wencry.Model.PipeSpurious Wencry.Model.IoBuffer Wencry.Proofs.PipeCtl Wencry.Proofs.PipeProgress
 
@@ -113,5 +114,23 @@ example : let inp : Input := fun p => if p = 0 then ([Block.zero], .full) else i
   decide +kernel
 
 end fine
+
+/-! ### Mutex level AND spurious wake-ups (Model/PipeFineSpurious.lean) -/
+section fineS
+open Wencry.Model.PipeFine Wencry.Model.PipeFineSpurious
+
+theorem no_deadlock_at_mutex_level_with_spurious_wakeups (f : σ → Block → σ × Block) (inp : Input) (hwf : inp.WF) (ispad : Bool) (T : Nat)
+    (hT : 0 < T) (ws0 : Nat → σ) (s : FSt σ) (h : FReachS f inp ispad T ws0 s) :
+    fAllDone T s ∨ ∃ tid, (fstep f inp ispad T s tid).isSome :=
+  Proofs.PipeFineSpurious.fine_deadlock_free_S f inp hwf ispad T hT ws0 s h
+
+theorem no_infinite_execution_at_mutex_level_with_finitely_many_spurious_wakeups (f : σ → Block → σ × Block) (inp : Input) (hwf : inp.WF)
+    (ispad : Bool) (P T : Nat) (hT : 0 < T) (hP : FirstNonFull inp P) (ws0 : Nat → σ)
+    (run : Nat → FSt σ) (evs : Nat → Ev) (h0 : run 0 = finit T ws0)
+    (hstep : ∀ n, fstepS f inp ispad T (run n) (evs n) = some (run (n + 1)))
+    (N : Nat) (hfin : ∀ n, N ≤ n → (evs n).isSpur = false) : False :=
+  Proofs.PipeFineSpurious.fine_no_infinite_run_S f inp hwf ispad P T hT hP ws0 run evs h0 hstep N hfin
+
+end fineS
 
 end Wencry.Props.C04
